@@ -393,9 +393,13 @@ static void run_czt(Json& js, vh::Rng& rng, long budget) {
         // "the same kind of accuracy": relative to the l2 size of the terms, bound 32 (n + m) eps with the chirp's
         // angle error (w given as a double: |arg error| <= eps, multiplied by up to n*m/2) added
         const double err = scale == 0 ? 0 : (double)sqrtl(num / scale);
-        const double bound = 32.0 * (n + m) * EPS + 4.0 * EPS * (double)n * m;
+        // chirp-z evaluates w^(k^2/2) for |k| < max(n, m): the phase of such a power carries the rounding of arg(w) times k^2/2,
+        // whatever the algorithm does afterwards; the direct sum would only see j*k <= n*m.  (The first bound, with n*m alone,
+        // raised a false alarm in the thorough tier for m << n.)
+        const double mx = (double)std::max(n, m);
+        const double bound = 32.0 * (n + m) * EPS + 4.0 * EPS * (double)n * m + 2.0 * EPS * (double)fabsl(warg) * mx * mx;
         js.begin("Resid").str("clause", "C01.czt").str("api", "czt").num("n", n).num("n2", m).str("cls", o)
-          .num("outlen", X.size()).num("err_milli", milli(err, bound)).end();
+          .num("outlen", X.size()).num("err_milli", milli(err, bound)).num("chirp_milli", milli(err, EPS * (double)fabsl(warg) * mx * mx + 1e-300)).end();
     }
 }
 
